@@ -281,7 +281,13 @@ class Gen:
                         elif h2 == "attrs":
                             cur = sec["attrs"]
                         elif h2 == "loop":
-                            cur = sec["loops"].setdefault(int(r2), [])
+                            parts2 = r2.split()
+                            cur = sec["loops"].setdefault(int(parts2[0]), [])
+                            for o2 in parts2[1:]:
+                                if o2.startswith("var="):
+                                    # the invariant text names the `for` variable as given here; the engine substitutes the
+                                    # variable name found in the source (robust against a renamed loop variable)
+                                    sec.setdefault("loopvars", {})[int(parts2[0])] = o2[4:]
                         else:
                             raise ExtractError("unknown directive " + d2)
                     else:
@@ -408,7 +414,21 @@ class Gen:
                 if k >= len(offs):
                     raise ExtractError("%s: loop #%d not found (%d loops)" % (where, k, len(offs)))
                 o = offs[k]
-                body = body[:o] + "\n" + "\n".join(sec["loops"][k]) + "\n" + body[o:]
+                inv = "\n".join(sec["loops"][k])
+                tv = sec.get("loopvars", {}).get(k)
+                if tv:
+                    hdr = mbody[:o]
+                    mv = list(re.finditer(r"\bfor\s+(\w+)\s+in\b", hdr))
+                    if mv and mv[-1].group(1) != tv:
+                        real = mv[-1].group(1)
+                        fixed = []
+                        for ln in inv.split("\n"):
+                            # capture avoidance: a quantifier in this clause that binds the real loop variable's name gets a fresh name
+                            if re.search(r"(forall|exists)\|[^|]*\b%s\b\s*:" % re.escape(real), ln):
+                                ln = re.sub(r"\b%s\b" % re.escape(real), real + "_bound", ln)
+                            fixed.append(re.sub(r"\b%s\b" % re.escape(tv), real, ln))
+                        inv = "\n".join(fixed)
+                body = body[:o] + "\n" + inv + "\n" + body[o:]
         body = strip_log_macros(body)
         body = apply_rw(body, sec["rw"], where)
         self.items.append({"name": name, "kind": head, "file": kv["file"], "line": line,
